@@ -23,6 +23,7 @@ func checkC02(c *Ctx) {
 	c.checkPrepareMessage()
 	c.checkContentUnaltered()
 	c.checkPushAudience()
+	c.checkChannelPushNotDropped()
 	c.checkMessageCopyIsDeep()
 	c.checkEvictionDetachesAll()
 }
